@@ -323,6 +323,8 @@ def gen_spec(rng, **knobs) -> dict:
         blocks.append(blk)
     spec = {"name": "sim", "inputs": inputs, "outputs": outputs, "blocks": blocks}
     spec["flags"] = {"fn_reads_output": fn_reads_output(spec)}
+    if rng.random() < 0.15:
+        spec["flags"]["int_params"] = True
     return spec
 
 
@@ -402,6 +404,18 @@ def _tokens(formula: str) -> list[str]:
 
 
 # ---------------------------------------------------------------------------- builder
+_INT_PARAMS = [False]
+
+
+def _num(v):
+    """Decode a spec number; with the int_params flavour integral values become Python ints (users write
+    Triangle("low", 0, 5, 10) and minimum=0, maximum=1 far more often than 0.0, 5.0, 10.0)."""
+    x = fdec(v)
+    if _INT_PARAMS[0] and math.isfinite(x) and x == math.floor(x) and abs(x) < 2**31:
+        return int(x)
+    return x
+
+
 def build_term(t: dict):
     cls = getattr(fl, t["cls"])
     a = t["args"]
@@ -409,11 +423,11 @@ def build_term(t: dict):
         conv = (lambda v: np.array(fdec(v))) if a.get("array_variables") else fdec
         return cls(t["name"], a["formula"], variables={k: conv(v) for k, v in a.get("variables", {}).items()})
     if t["cls"] == "Linear":
-        return cls(t["name"], [fdec(c) for c in a["coefficients"]])
+        return cls(t["name"], [_num(c) for c in a["coefficients"]])
     if t["cls"] == "Discrete":
         vals = [fdec(v) for v in a["values"]]
         return cls(t["name"], fl.Discrete.to_xy(vals[0::2], vals[1::2]), height=fdec(a.get("height", 1.0)))
-    return cls(t["name"], **{k: fdec(v) for k, v in a.items()})
+    return cls(t["name"], **{k: _num(v) for k, v in a.items()})
 
 
 NORM_FORMULAS_T = ["a * b", "min(a, b)", "max(0.0, a + b - 1.0)"]
@@ -453,10 +467,18 @@ def build_activation(a: dict | None):
 
 def build(spec: dict):
     """Build an engine from a spec using only public constructors (Engine(...) loads terms and rules)."""
-    ins = [fl.InputVariable(name=v["name"], enabled=v["enabled"], minimum=fdec(v["min"]), maximum=fdec(v["max"]),
+    _INT_PARAMS[0] = bool(spec.get("flags", {}).get("int_params"))
+    try:
+        return _build(spec)
+    finally:
+        _INT_PARAMS[0] = False
+
+
+def _build(spec: dict):
+    ins = [fl.InputVariable(name=v["name"], enabled=v["enabled"], minimum=_num(v["min"]), maximum=_num(v["max"]),
                             lock_range=v["lock_range"], terms=[build_term(t) for t in v["terms"]]) for v in spec["inputs"]]
-    outs = [fl.OutputVariable(name=v["name"], enabled=v["enabled"], minimum=fdec(v["min"]), maximum=fdec(v["max"]),
-                              lock_range=v["lock_range"], lock_previous=v["lock_previous"], default_value=fdec(v["default"]),
+    outs = [fl.OutputVariable(name=v["name"], enabled=v["enabled"], minimum=_num(v["min"]), maximum=_num(v["max"]),
+                              lock_range=v["lock_range"], lock_previous=v["lock_previous"], default_value=_num(v["default"]),
                               aggregation=build_norm(v["aggregation"]), defuzzifier=build_defuzzifier(v["defuzzifier"]),
                               terms=[build_term(t) for t in v["terms"]]) for v in spec["outputs"]]
     blocks = []
